@@ -1,8 +1,8 @@
 SPECIFICATION Spec
 CONSTANTS
   ClassLevelPropagate = FALSE
-  ParamResolve = FALSE
-  InitRestated = FALSE
+  ParamResolve = TRUE
+  InitRestated = TRUE
   OriginFromSuper = FALSE
   AllowModifyBusy = TRUE
   Parent <- Chain3
